@@ -148,6 +148,19 @@ def run_property(pid, tier):
                                                    extra={"detail": e.get("detail")}, clause=e["name"], tags=[pid], core=[], goal=e.get("detail"))))
         elif e["status"] != "discharged":
             undecided.append((e["backend"], None, "%s: %s" % (e["name"], e.get("detail"))))
+    # ---- guards: T0 axiom audit against CPython (bounded test of the model), cvc5 agreement (thorough) -------------------
+    from . import audit
+    aud = audit.run(60 if tier != "thorough" else 1500, seed)
+    cvc5_stats = {"unsat": 0, "unknown": 0, "sat": 0}
+    for q, o in rel:
+        c5 = (o.get("extra") or {}).get("cvc5")
+        if c5:
+            cvc5_stats[c5] = cvc5_stats.get(c5, 0) + 1
+    engine_faults = []
+    if not aud.get("ok"):
+        engine_faults.append("T0 axiom audit failed: %s" % (aud.get("failures") or aud.get("error")))
+    if cvc5_stats["sat"]:
+        engine_faults.append("cvc5 found a model for %d queries z3 answered unsat" % cvc5_stats["sat"])
     # ---- known findings ------------------------------------------------------------------------------------
     kf = load_known_findings()
     known_lines, real_violations = [], []
@@ -160,8 +173,36 @@ def run_property(pid, tier):
     for e in extra_ob:
         if e.get("known_finding"):
             known_lines.append("KNOWN-FINDING: property=%s %s" % (pid, e["known_finding"]))
-    # ---- replay + report -------------------------------------------------------------------------------------
+    # ---- undecided (outside-subset, solver unknown): look for a concrete failing input on the REAL code ----------------------
+    # A concrete counterexample is definitive whatever produced it; without one the verdict stays "undecided" (exit 2).
     from . import replay
+    fallback = None
+    if undecided and not real_violations:
+        fallback = undecided_fallback(pid, seed, undecided, reg, repo)
+        if fallback is not None:
+            o = dict(name="%s/bounded-search-after-undecided" % fallback["function"], kind="bounded-search", status="refuted",
+                     clause=fallback.get("clause"), tags=[pid], core=[], model=fallback.get("input"), goal=None,
+                     extra={"note": "the verifier could not decide this function (%s); a bounded differential search on the real code found a failing input" % fallback["why_undecided"][:200],
+                            "finding": fallback["finding"]})
+            o["_prefound"] = fallback
+            real_violations.append((fallback["function"], o))
+            violations.append((fallback["function"], o))
+    # ---- thorough tier: bounded cross-checks of the spec vocabulary / reference against the real code (never counted as proof) --
+    thorough_standins = []
+    if tier == "thorough":
+        from . import scenarios, edfalsify
+        t1 = time.time()
+        r = scenarios.run(rounds=4, big=True, seed=seed, only=SUITES_FOR.get(pid, []) or ["s_util"])
+        thorough_standins.append("differential scenarios %s vs independent reference: %s (%.0fs) [BOUNDED]" % (SUITES_FOR.get(pid), "no mismatch" if not r.get("mismatch") else "MISMATCH", time.time() - t1))
+        if r.get("mismatch") and not str(r["mismatch"].get("kind", "")).startswith("suite-error") and not real_violations:
+            o = dict(name="bounded-cross-check/%s" % r["mismatch"].get("kind"), kind="bounded-search", status="refuted", clause=None, tags=[pid], core=[],
+                     model=r["mismatch"], goal=None, extra={"note": "thorough-tier differential scenario found a concrete failing input on the real code"})
+            o["_prefound"] = dict(finding=r["mismatch"])
+            real_violations.append(("scenarios", o))
+        if pid in ("C12", "C13", "C05"):
+            for fn in ("double_element", "add_elements", "_add_elements_nonunfied", "is_extended_zero", "xform_extended_to_affine"):
+                w = edfalsify.falsify("ed25519_basic." + fn, trials=1500, seed=seed)
+                thorough_standins.append("ed25519_basic.%s vs affine reference on 1500 random + all small-order points: %s [BOUNDED]" % (fn, "agree" if w is None else "DISAGREE %s" % w))
     vio_lines = []
     for q, o in real_violations:
         path, found = replay.write_replay(pid, q, o, repo)
@@ -188,7 +229,7 @@ def run_property(pid, tier):
     exit_code = 0
     if real_violations:
         exit_code = 1
-    elif faults or canary_missing or (n_z3 + n_extra) == 0:
+    elif faults or canary_missing or engine_faults or (n_z3 + n_extra) == 0:
         exit_code = 3
     elif undecided:
         exit_code = 2
@@ -212,8 +253,11 @@ def run_property(pid, tier):
             "source_hash": repo.source_hash, "repo_root": repo.root,
             "dropped_constructs": sorted({n for q in fns for n in results[q]["notes"] if n.startswith("dropped")}),
             "known_findings_reproduced": known_lines,
-            "bounded_standins": list(getattr(cfg.extra, "standins", []) or []) if cfg.extra is not None else [],
+            "bounded_standins": (list(getattr(cfg.extra, "standins", []) or []) if cfg.extra is not None else []) + thorough_standins,
             "closure_rounds": rounds,
+            "t0_axiom_audit": {"kind": "bounded test of the library model against CPython (not a proof step)", "ok": aud.get("ok"),
+                               "instances": aud.get("instances"), "schemas": len(aud.get("schemas", []))},
+            "cvc5_crosscheck": cvc5_stats if tier == "thorough" else "thorough tier only",
         },
         "assumptions": COMMON_ASSUMPTIONS + cfg.assumptions + t2_used + sorted({n for q in fns for n in results[q]["notes"] if not n.startswith("dropped")}),
         "wall_s": round(time.time() - t0, 2),
@@ -232,11 +276,49 @@ def run_property(pid, tier):
         print("CHECKER-FAULT in %s: %s\n%s" % (f["qual"], f["fault"], f.get("tb", "")))
     for c in canary_missing:
         print("CHECKER-FAULT canary not refuted: %s" % c)
+    for c in engine_faults:
+        print("CHECKER-FAULT %s" % c)
     for q, o, why in undecided[:30]:
         print("UNDECIDED %s %s: %s" % (q, o["name"] if o else "", str(why)[:300]))
     for l in vio_lines:
         print(l)
     return exit_code
+
+
+SUITES_FOR = {
+    "C01": ["s_sessions", "s_params_mix"], "C02": ["s_sessions"], "C03": ["s_sessions", "s_derivations", "s_params_mix"],
+    "C04": ["s_sessions", "s_entropy"], "C05": ["s_elements", "s_sessions"], "C06": ["s_sessions"], "C07": ["s_sessions"],
+    "C08": ["s_sessions", "s_params_mix"], "C09": ["s_params_mix"], "C10": ["s_params_mix", "s_sessions"], "C11": ["s_util", "s_entropy"],
+    "C12": ["s_elements"], "C13": ["s_elements"], "C14": ["s_derivations"], "C15": ["s_util", "s_elements"],
+    "C16": ["s_params_mix", "s_entropy"], "C17": [], "C18": ["s_elements"],
+}
+
+
+def undecided_fallback(pid, seed, undecided, reg, repo):
+    from . import replay, scenarios
+    # (1) plain functions (int/bytes parameters): random + related-input search against the property's own clauses
+    for q, o, why in undecided:
+        c = reg.get(q)
+        if c is None or q in reg.ghosts:
+            continue
+        for cl in c.post + c.exc:
+            if pid not in cl.tags:
+                continue
+            fake = dict(name="%s/%s" % (q, cl.name), clause=cl.name, extra={}, model=None)
+            try:
+                a = replay.try_search(q, fake, repo, seed)
+            except Exception:
+                a = None
+            if a and a.get("confirmed"):
+                return dict(function=q, clause=cl.name, why_undecided=str(why), finding=a, input=a.get("failing_input"))
+    # (2) differential scenarios restricted to the suites that witness this property
+    suites = SUITES_FOR.get(pid, [])
+    if suites:
+        r = scenarios.run(rounds=2, seed=seed, only=suites)
+        if r.get("mismatch") and not str(r["mismatch"].get("kind", "")).startswith("suite-error"):
+            q = undecided[0][0]
+            return dict(function=q, clause=None, why_undecided=str(undecided[0][2]), finding=r["mismatch"], input=r["mismatch"])
+    return None
 
 
 def relevant(pid, q, r, o, needed, roots):
